@@ -64,6 +64,9 @@ impl Log {
         let mut o = self.out.borrow_mut();
         let _ = serde_json::to_writer(&mut *o, &Value::Object(m));
         let _ = o.write_all(b"\n");
+        // every event reaches the file at once: a process abort inside the code under test
+        // (the supervisor judges what was recorded) must not lose the events that led to it
+        let _ = o.flush();
     }
 
     pub fn events(&self) -> u64 {
